@@ -22,6 +22,13 @@ pub mod c19_backoff;
 pub mod c19b;
 pub mod c20;
 
+/// `check` hands a replay file to EVERY part of a property. The two psim parts of C08 answer only for their own cases (the
+/// other one reports nothing instead of "case not in this tier's case list").
+fn c08_replay_of_other_part(args: &Args) -> bool {
+    let case = args.replay_json().and_then(|j| j.get("case").and_then(|c| c.as_str().map(str::to_string)));
+    case.is_some_and(|c| c.starts_with(c08t::LABEL_PREFIX) != (args.id == "C08T"))
+}
+
 pub fn dispatch(args: &Args) -> Report {
     match args.id.as_str() {
         "C02" => c02::run(args),
@@ -31,6 +38,7 @@ pub fn dispatch(args: &Args) -> Report {
         "C06" => c06::run(args),
         "C03R" | "C10R" | "C15R" => c06::run_reuse(args),
         "C07" => c07::run(args),
+        "C08" | "C08T" if c08_replay_of_other_part(args) => Report::new("C08", &args.tier, "psim", "fault_enumeration"),
         "C08" => c08::run(args),
         "C08T" => c08t::run(args),
         "C09" => c09::run(args),
